@@ -1383,12 +1383,16 @@ package asm
 //@   assigns nothing
 //@   ensures result1 == nil ==> result0 != nil && fresh(result0) && result0.GlobalIdent == ident && result0.Parent == gen.m && result0.Sig != nil && result0.Typ != nil && fresh(result0.Typ) && result0.Typ.ElemType == boxed(result0.Sig) && result0.Typ.AddrSpace == result0.AddrSpace
 //@   ensures result1 != nil ==> result0 == nil
-//@ # (assumed: the address-space inference of newIndirectSymbol translates types and panics on shapes outside the grammar)
+//@ # (not stated: the address space inferred from the aliasee -- the translated aliasee type is not known to be distinct
+//@ # from the pointer type under construction; the numbering/module-shape stand-in prints aliases in address spaces)
 //@ func (*generator).newIndirectSymbol
-//@   trusted
+//@   props C04 C06
+//@   partial
 //@   requires gen != nil && old != nil
 //@   requires old.IndirectSymbolKind().Text() == "alias" || old.IndirectSymbolKind().Text() == "ifunc"
 //@   assigns caches
+//@   ensures result1 == nil && old.IndirectSymbolKind().Text() == "alias" ==> cast(result0, "*ir.Alias").Typ != nil && fresh(cast(result0, "*ir.Alias").Typ) && teq(cast(result0, "*ir.Alias").Typ.ElemType, tyOf(old.ContentType()))
+//@   ensures result1 == nil && old.IndirectSymbolKind().Text() == "ifunc" ==> cast(result0, "*ir.IFunc").Typ != nil && fresh(cast(result0, "*ir.IFunc").Typ) && teq(cast(result0, "*ir.IFunc").Typ.ElemType, tyOf(old.ContentType()))
 //@   ensures result1 == nil && old.IndirectSymbolKind().Text() == "alias" ==> typeis(result0, "*ir.Alias") && fresh(cast(result0, "*ir.Alias")) && cast(result0, "*ir.Alias") != nil && cast(result0, "*ir.Alias").GlobalIdent == ident
 //@   ensures result1 == nil && old.IndirectSymbolKind().Text() == "ifunc" ==> typeis(result0, "*ir.IFunc") && fresh(cast(result0, "*ir.IFunc")) && cast(result0, "*ir.IFunc") != nil && cast(result0, "*ir.IFunc").GlobalIdent == ident
 //@   ensures result1 != nil ==> result0 == nil
